@@ -85,6 +85,7 @@ def check(ctx):
     # the column layout a KROME file is decoded with is that file's own: directive state is reset before EVERY file (shared with C12.R4 / C17.R4)
     krome_reset(ctx, pkg, "R9")
     _r10(ctx, pkg)
+    _r11(ctx, pkg)
     # a reaction read from a file takes part in the equations: nothing filters reactions between the list and the ODE terms
     # (shared with C01.R2/R3)
 
@@ -125,6 +126,405 @@ def _r10(ctx, pkg):
         else:
             ctx.unrec("R10", "KROME:@format: column list", (KF, st[0].lineno), f"cannot see that the column list is the directive line minus `@format:`: {src[:80]}")
     ctx.floor("R10", "strip calls with a literal argument", n, 0)
+
+
+# ------------------------------------------------------------------ R11  the record a parser decodes is the caller's line, untouched
+
+# well-formed data lines of the six formats (the repository's own test data / bundled examples, plus multiply deuterated names)
+SAMPLES = [
+    ("kida", "C          CH                     H          C2                                            2.400e-10  0.000e+00  0.000e+00 2.00e+00 1.00e+02 logn  4     10    300  3  4894 1  1\n"),
+    ("kida", "C2D2       H+                     C2D2+      H                                             1.000e-09  0.000e+00  0.000e+00 2.00e+00 0.00e+00 logn  3     10    280  3   612 1  1\n"),
+    ("kida", "CH2D2      NH2D2+                 CH2D2+     NH2D2                                         4.670E-10  5.000E-01  3.040E+04 2.00e+00 0.00e+00 logn  4     10    800  3  6599 1  1\n"),
+    ("krome", "1,C,CH,,H,C2,,,,10,280,6.590e-11\n"),
+    ("krome", "2,H,C2D2,,C,CH2D2,,,,>1.d1,.LE.8d2,4.67e-10*(T32)**(-5.000e-01)*exp(-3.040e+04*invT)\n"),
+    ("leeds", " 4956 C         CH                  C2        H                                       6.59E-11     0.00       0.0    541000  1\n"),
+    ("leeds", "   12 GC2D2     GH                  GC2D3                                             1.00E+00     0.00       0.0    0    0 14\n"),
+    ("uclchem", "C,CH,NAN,C2,H,NAN,NAN,6.59e-11,0.0,0.0,10,300\n"),
+    ("uclchem", "#CH4,DESOH2,NAN,CH4,NAN,NAN,NAN,1.0,0.0,960.0,0.0,10000.0\n"),
+    ("uclchem", "#C2D2,THERM,NAN,C2D2,NAN,NAN,NAN,1.0,0.0,2587.0,0.0,10000.0\n"),
+    ("umist", '5173:NN:C:CH:C2:H:::1:6.59e-11:0.00:0.0:10:300:L:C:"10.1111/j.1365-2966.2004.07656.x"::\n'),
+    ("umist", "12:IN:C2D2:NH2D2+:C2D3+:NHD2:::1:1.00e-09:-0.50:0.0:10:41000:L:C:::\n"),
+    ("naunet", "1,C,CH,,C2,H,,,,6.59e-11,0.0,0.0,10.0,300.0,100,kida\n"),
+    ("naunet", "7,#CH4,,,CH4,,,,,1.0,0.0,960.0,-1.0,-1.0,201,uclchem\n"),
+    ("naunet", "8,C2D2,H+,,C2D2+,H,,,,1.0E-09,0.0,0.0,-1.0,-1.0,100,unknown\n"),
+]
+
+
+class _Unknown(Exception):
+    """the concrete evaluator met a construct it does not evaluate"""
+
+
+_STR_METHODS = {"strip", "lstrip", "rstrip", "startswith", "endswith", "upper", "lower", "casefold", "replace", "split", "rsplit", "splitlines", "isspace", "isdigit",
+                "isalpha", "isalnum", "find", "rfind", "index", "count", "partition", "rpartition", "removeprefix", "removesuffix", "expandtabs", "join", "translate",
+                "title", "swapcase", "capitalize", "ljust", "rjust", "center", "zfill", "format", "isupper", "islower", "__contains__", "__eq__", "__ne__", "__len__", "__getitem__"}
+_RE_METHODS = {"sub", "subn", "match", "search", "fullmatch", "findall", "split"}
+_MATCH_METHODS = {"group", "groups", "start", "end", "span"}
+_FUNCS = {"len": len, "str": str, "bool": bool, "tuple": tuple, "list": list, "any": any, "all": all, "repr": repr, "sorted": sorted, "set": set, "frozenset": frozenset,
+          "min": min, "max": max, "int": int, "float": float}
+
+
+def _ceval(v, env, consts=None):
+    """VALUE of the IR term `v` for concrete values of its free terms: env maps IR terms (("param", "line"), an ("elem", ..) ..) to python
+    values; `consts(term)` -> python value | raises _Unknown for ("global", name) / ("attr", self, name) terms.  Only pure operations on
+    strings / tuples / compiled regular expressions are evaluated; anything else raises _Unknown.  Used to exhibit a CONCRETE well-formed
+    line that a piece of code drops or rewrites (positive evidence), never to argue that code is right."""
+    E = lambda x: _ceval(x, env, consts)
+    if v in env:
+        return env[v]
+    if not isinstance(v, tuple) or not v:
+        raise _Unknown(repr(v))
+    k = v[0]
+    if k == "const":
+        return v[1]
+    if k in ("tuple", "list", "set"):
+        out = []
+        for e in v[1]:
+            if e[0] == "star":
+                out.extend(E(e[1]))
+            else:
+                out.append(E(e))
+        return tuple(out) if k == "tuple" else out if k == "list" else set(out)
+    if k == "unop":
+        x = E(v[2])
+        return (not x) if v[1] == "Not" else -x if v[1] == "USub" and isinstance(x, (int, float)) else (_ for _ in ()).throw(_Unknown(show(v)))
+    if k == "bool":
+        r = None
+        for x in v[2]:
+            r = E(x)
+            if (v[1] == "And" and not r) or (v[1] == "Or" and r):
+                return r
+        return r
+    if k in ("phi", "ifexp"):
+        return E(v[2]) if E(v[1]) else E(v[3])
+    if k == "cmp":
+        ops, xs = v[1], v[2]
+        left = E(xs[0])
+        for op, rx in zip(ops, xs[1:]):
+            right = E(rx)
+            try:
+                r = {"Eq": lambda: left == right, "NotEq": lambda: left != right, "In": lambda: left in right, "NotIn": lambda: left not in right,
+                     "Is": lambda: left is right or (left == right and right is None), "IsNot": lambda: not (left is right), "Lt": lambda: left < right, "LtE": lambda: left <= right,
+                     "Gt": lambda: left > right, "GtE": lambda: left >= right}[op]()
+            except (TypeError, KeyError):
+                raise _Unknown(show(v))
+            if not r:
+                return False
+            left = right
+        return True
+    if k == "sub":
+        base = E(v[1])
+        if v[2][0] == "slice":
+            lo, hi, st = (None if x == ("const", None) else E(x) for x in v[2][1:4])
+            idx = slice(lo, hi, st)
+        else:
+            idx = E(v[2])
+        if not isinstance(base, (str, tuple, list, dict)):
+            raise _Unknown(show(v))
+        try:
+            return base[idx]
+        except (IndexError, KeyError, TypeError):
+            raise _Unknown(show(v))
+    if k == "item" and isinstance(v[2], int):
+        base = E(v[1])
+        try:
+            return base[v[2]]
+        except Exception:
+            raise _Unknown(show(v))
+    if k == "binop" and v[1] in ("Add", "Mult", "Mod"):
+        a, b = E(v[2]), E(v[3])
+        if v[1] == "Add" and type(a) is type(b) and isinstance(a, (str, tuple, list, int)):
+            return a + b
+        raise _Unknown(show(v))
+    if k == "fstr":
+        out = ""
+        for p_ in v[1]:
+            if p_[0] == "const":
+                out += p_[1]
+            elif p_[0] == "fmt" and not p_[2] and not p_[3]:
+                out += format(E(p_[1]))
+            else:
+                raise _Unknown(show(v))
+        return out
+    if k == "call" and v[1][0] == "global" and not v[3]:
+        f = v[1][1]
+        if f == "isinstance" and len(v[2]) == 2:
+            x = E(v[2][0])
+            t = v[2][1]
+            if t[0] == "global" and t[1] in ("str", "tuple", "list"):
+                return isinstance(x, {"str": str, "tuple": tuple, "list": list}[t[1]])
+            if t[0] == "global" and t[1][:1].isupper() and isinstance(x, (str, tuple, list, type(None))):
+                return False            # a builtin value is not an instance of a class of the package
+            raise _Unknown(show(v))
+        if f in _FUNCS:
+            args = [E(a) for a in v[2]]
+            try:
+                return _FUNCS[f](*args)
+            except Exception:
+                raise _Unknown(show(v))
+        raise _Unknown(show(v))
+    if k == "meth":
+        name, args, kws = v[2], v[3], v[4]
+        if v[1] == ("global", "re") and name in _RE_METHODS | {"compile", "escape"} and not kws:
+            vals = [E(a) for a in args]
+            try:
+                return getattr(re, name)(*vals)
+            except Exception:
+                raise _Unknown(show(v))
+        obj = E(v[1])
+        vals = [E(a) for a in args]
+        kv = {k_: E(x) for k_, x in kws}
+        ok = (isinstance(obj, str) and name in _STR_METHODS) or (isinstance(obj, re.Pattern) and name in _RE_METHODS) or (isinstance(obj, re.Match) and name in _MATCH_METHODS) \
+            or (isinstance(obj, (tuple, list)) and name in ("index", "count", "__contains__")) or (isinstance(obj, dict) and name in ("get", "keys", "values", "items", "__contains__"))
+        if not ok:
+            raise _Unknown(show(v))
+        try:
+            return getattr(obj, name)(*vals, **kv)
+        except Exception:
+            raise _Unknown(show(v))
+    if k in ("global", "attr") and consts is not None:
+        return consts(v)
+    raise _Unknown(show(v))
+
+
+def _const_resolver(pkg, file, cls=None):
+    """python values of the names a function of `file` (a method of `cls`) reads: module-level literal tables / constants bound once and
+    never mutated (pymodel.module_tables), class-level constants incl. re.compile(<literals>) (pymodel.class_constants)"""
+    def lit(node):
+        if isinstance(node, ast.Call) and ast.unparse(node.func) == "re.compile" and not node.keywords:
+            try:
+                return re.compile(*[ast.literal_eval(a) for a in node.args])
+            except Exception:
+                raise _Unknown(ast.unparse(node))
+        try:
+            return ast.literal_eval(node)
+        except Exception:
+            raise _Unknown(ast.unparse(node)[:60])
+
+    def module_const(name):
+        tabs = pkg.module_tables(file)
+        if name in tabs:
+            return lit(tabs[name])
+        mod = pkg.modules.get(file)
+        binds = [st for st in (mod.body if mod else []) if isinstance(st, ast.Assign) and any(isinstance(t, ast.Name) and t.id == name for t in st.targets)]
+        stores = [x for x in ast.walk(mod) if isinstance(x, ast.Name) and x.id == name and isinstance(x.ctx, (ast.Store, ast.Del))] if mod else []
+        globs = [x for x in ast.walk(mod) if isinstance(x, ast.Global) and name in x.names] if mod else []
+        if len(binds) == 1 and len(stores) == 1 and not globs and len(binds[0].targets) == 1:
+            return lit(binds[0].value)
+        raise _Unknown(name)
+
+    def consts(t):
+        if t[0] == "global":
+            return module_const(t[1])
+        if t[0] == "attr" and cls is not None and (t[1] in (SELF, ("param", "cls")) or (t[1][0] == "global" and t[1][1] in pkg.mro(cls))):
+            cc = pkg.class_constants(cls)
+            if t[2] in cc:
+                return lit(cc[t[2]])
+        raise _Unknown(show(t))
+    return consts
+
+
+def _subst(v, m):
+    """IR term v with the sub-terms in m replaced"""
+    if v in m:
+        return m[v]
+    if isinstance(v, tuple):
+        return tuple(_subst(x, m) if isinstance(x, tuple) else x for x in v)
+    return v
+
+
+def _same_record(got, line):
+    """the text handed on is the line (the line terminator / trailing blanks aside, which no parser reads)"""
+    return isinstance(got, str) and got.rstrip() == line.rstrip() and (got[:1].isspace() == line[:1].isspace())
+
+
+def _r11(ctx, pkg):
+    """Identity flow from the file to the parser.  Every data line of a file reaches `_add_reaction` (nothing in the reading loop
+    skips lines by their text: data lines of UCLCHEM / native files begin with the surface prefix '#'), and the text each hop hands on
+    -- add_reaction_from_file -> _add_reaction -> _reaction_factory, <Format>.__init__ -> Reaction.__init__ -> _parse_string -- is the
+    text it was given (a rewrite of the WHOLE line also rewrites species names: `C2D2` looks like a Fortran double).  Decided by
+    evaluating the reconstructed guards / arguments on well-formed sample lines of every format (SAMPLES): a sample that is skipped or
+    comes out changed is a concrete counterexample; code the evaluator cannot follow is UNRECOGNISED, never a violation."""
+    from ..valueflow import strip_transparent
+    # ---- hop 1: the reading loop
+    pkg.method("Network", "add_reaction_from_file")
+    fn = pkg.folded("Network", "add_reaction_from_file")
+    ctx.saw(NET, "Network.add_reaction_from_file")
+    fl = Flow(fn, NET, resolver=lambda name: pkg.resolve("Network", name)[1] if name not in ("_add_reaction", "add_reaction") else None,
+              func_resolver=lambda name: pkg.functions.get((NET, name)) if name != "_reaction_factory" else None)
+    consts = _const_resolver(pkg, NET, "Network")
+    fmt_param = ("param", fn.args.args[2].arg) if len(fn.args.args) >= 3 else ("param", "format")
+    sites = []           # (argument IR, loops, guards, line)
+    seen = set()
+    cands = [(f.value, f.loops, f.guards, f.line) for f in fl.facts if f.value is not None] + [(v, loops, guards, line) for lst in fl.assigns.values() for v, loops, guards, line, seq in lst]
+    for val, loops, guards, line in cands:
+        for x in walk(simp(val)):
+            if isinstance(x, tuple) and len(x) == 5 and x[0] == "meth" and x[2] in ("_add_reaction", "add_reaction") and x[1] == SELF and loops and (x, line) not in seen:
+                seen.add((x, line))
+                sites.append((x, loops, guards, line))
+    key = "Network.add_reaction_from_file:every line is handed on"
+    if not sites:
+        ctx.unrec("R11", key, (NET, fn.lineno), "cannot find the call of self._add_reaction(..) inside the loop over the lines of the file")
+    else:
+        verdicts = []        # per sample: True (handed on unchanged), ("skipped" | "changed", detail), None (not decided)
+        for fmt, sample in SAMPLES:
+            res = None
+            for call, loops, guards, line in sites:
+                args = list(call[3]) + [v_ for _, v_ in call[4]]
+                elems = {x for a in args for x in walk(a) if isinstance(x, tuple) and len(x) == 3 and x[0] == "elem"}
+                if len(args) != 1 or len(elems) != 1:
+                    continue
+                el = next(iter(elems))
+                # a loop over a filtered / re-written sequence of lines is not read here
+                src = strip_transparent(simp(el[1]))
+                while src[0] == "call" and src[1] in (("global", "enumerate"), ("global", "iter"), ("global", "list"), ("global", "tuple")) and src[2]:
+                    src = strip_transparent(simp(src[2][0]))
+                if not (src[0] == "with" or (src[0] == "meth" and src[2] in ("readlines",) and not src[3]) or src[0] in ("param", "attr")):
+                    continue
+                env = {el: sample, fmt_param: fmt}
+                try:
+                    reached = True
+                    for g, pol in guards:
+                        g = simp(g)
+                        if not any(x == el for x in walk(g)):
+                            continue            # not a test of the line's text
+                        if bool(_ceval(g, env, consts)) != pol:
+                            reached = False
+                            why = show(_subst(g, {el: ("param", "line")}))[:100]
+                            break
+                    if not reached:
+                        res = res or ("skipped", why, line)
+                        continue
+                    got = _ceval(args[0], env, consts)
+                except _Unknown:
+                    res = None
+                    break
+                if isinstance(got, (tuple, list)) and len(got) == 2 and _same_record(got[0], sample) and got[1] == fmt:
+                    res = True
+                    break
+                res = ("changed", repr(got)[:100], line)
+            verdicts.append((fmt, sample, res))
+        wrong = [(f_, s_, r_) for f_, s_, r_ in verdicts if isinstance(r_, tuple)]
+        if wrong:
+            f_, s_, (what, detail, line) = wrong[0]
+            ctx.bad("R11", key, (NET, line),
+                    (f"the reading loop skips well-formed data lines by their text (test: {detail}): " if what == "skipped" else f"the reading loop hands on a rewritten line ({detail}): ")
+                    + f"the {f_} line {s_.strip()[:60]!r} adds no reaction / another reaction -- the network no longer has one reaction per data line",
+                    expected="self._add_reaction((line, format)) for every line", found=f"{len(wrong)} of {len(SAMPLES)} sample lines {what}")
+        elif any(r_ is None for _, _, r_ in verdicts):
+            ctx.unrec("R11", key, (NET, sites[0][3]), "cannot follow the tests / the argument between the line read from the file and self._add_reaction(..)")
+        else:
+            ctx.ok("R11", key, (NET, sites[0][3]), "every well-formed sample line of every format reaches self._add_reaction((line, format)) unchanged")
+    # ---- hop 2: _add_reaction -> _reaction_factory
+    pkg.method("Network", "_add_reaction")
+    afn = pkg.folded("Network", "_add_reaction")
+    # (a helper that turns the (line, format) pair into an instance -- `reaction = self._as_reaction(reaction)` -- is read as the value it returns)
+    afl = Flow(afn, NET, resolver=lambda name: pkg.resolve("Network", name)[1] if name.startswith("_") and not name.startswith("__") else None)
+    rp = ("param", afn.args.args[1].arg) if len(afn.args.args) >= 2 else None
+    calls = {x for val in [f.value for f in afl.facts if f.value is not None] + [v for lst in afl.assigns.values() for v, *_ in lst] for x in walk(simp(val))
+             if isinstance(x, tuple) and len(x) == 4 and x[0] == "call" and x[1] == ("global", "_reaction_factory")}
+    key = "Network._add_reaction:the factory gets the caller's line"
+    if len(calls) != 1 or rp is None:
+        ctx.unrec("R11", key, (NET, afn.lineno), f"expected one call _reaction_factory(..) in _add_reaction, found {len(calls)}")
+    else:
+        call = next(iter(calls))
+        _hop(ctx, key, (NET, afn.lineno), lambda fmt, s: _factory_args(call, {rp: (s, fmt)}, _const_resolver(pkg, NET, "Network"), pkg), "_reaction_factory(*reaction)")
+    # ---- hop 3: _reaction_factory -> <Format>(react_string=..): what is constructed from is the pre-processing of the caller's line
+    ffn = pkg.func(NET, "_reaction_factory")
+    ffl = Flow(ffn, NET)
+    rs = ("param", ffn.args.args[0].arg) if ffn.args.args else None
+    made = set()
+    for f in ffl.facts:
+        if f.kind == "return" and f.value is not None:
+            for x in walk(simp(f.value)):
+                if isinstance(x, tuple) and len(x) == 4 and x[0] == "call" and (dict(x[3]).get("react_string") is not None or (len(x[2]) == 1 and not x[3] and any(y == ("global", "supported_reaction_class") for y in walk(x[1])))):
+                    made.add(dict(x[3]).get("react_string") or x[2][0])
+    key = "_reaction_factory:the parser gets the caller's line"
+    if len(made) != 1 or rs is None:
+        ctx.unrec("R11", key, (NET, ffn.lineno), f"expected one construction <Format>(react_string=..) in _reaction_factory, found {len(made)}")
+    else:
+        arg = simp(next(iter(made)))
+        # <cls>.preprocessing(x) of the formats that inherit it is x (R1 decides that); KROME's own keeps data lines stripped
+        pres = {x: x[3][0] for x in walk(arg) if isinstance(x, tuple) and len(x) == 5 and x[0] == "meth" and x[2] == "preprocessing" and len(x[3]) == 1 and not x[4]}
+        arg = _subst(arg, pres)
+        fc = _const_resolver(pkg, NET)
+        _hop(ctx, key, (NET, ffn.lineno), lambda fmt, s: _ceval(arg, {rs: s}, fc), "initializer(react_string=initializer.preprocessing(react_string))")
+    # ---- hop 4: <Format>.__init__ -> Reaction.__init__(react_string=..)
+    for cls in sorted(pkg.subclasses("Reaction")):
+        ci = pkg.cls(cls)
+        if "__init__" not in ci.methods or "_parse_string" not in ci.methods:
+            continue
+        ifn = pkg.folded(cls, "__init__")
+        ifl = Flow(ifn, ci.file, resolver=lambda name, c_=cls: pkg.resolve(c_, name)[1] if name not in ("_parse_string", "__init__") else None)
+        ps = [("param", a.arg) for a in ifn.args.args[1:]]
+        sup = [f.value for f in ifl.facts if f.kind == "call" and f.target == "__init__" and f.value[0] == "meth" and f.value[1][0] == "call" and f.value[1][1] == ("global", "super")]
+        key = f"{cls}.__init__:the base constructor gets the caller's line"
+        passed = [dict(c[4]).get("react_string") for c in sup]
+        if len(sup) != 1 or passed[0] is None or len(ps) != 1:
+            ctx.unrec("R11", key, (ci.file, ifn.lineno), "expected one call super().__init__(react_string=<the line>) in a constructor of one parameter")
+            continue
+        arg = simp(passed[0])
+        _hop(ctx, key, (ci.file, ifn.lineno), lambda fmt, s, a_=arg, p_=ps[0], c_=_const_resolver(pkg, ci.file, cls): _ceval(a_, {p_: s}, c_), "super().__init__(react_string=react_string)")
+    # ---- hop 5: Reaction.__init__ -> self._parse_string(..)
+    pkg.method("Reaction", "__init__")
+    bfn = pkg.folded("Reaction", "__init__", keep=KEEP + ("_parse_string",))
+    bfl = Flow(bfn, R, resolver=lambda name: pkg.resolve("Reaction", name)[1] if name not in ("_parse_string", "_create_species", "__init__") else None)
+    rsp = ("param", "react_string")
+    calls = [f for f in bfl.facts if f.kind == "call" and f.target == "_parse_string" and f.value[0] == "meth" and f.value[1] == SELF]
+    key = "Reaction.__init__:_parse_string gets the caller's line"
+    if len(calls) != 1 or len(calls[0].value[3]) + len(calls[0].value[4]) != 1 or not any(a.arg == "react_string" for a in bfn.args.args):
+        ctx.unrec("R11", key, (R, bfn.lineno), f"expected one call self._parse_string(<the line>) in Reaction.__init__, found {len(calls)}")
+    else:
+        c = calls[0]
+        arg = simp((list(c.value[3]) + [v_ for _, v_ in c.value[4]])[0])
+        unread = [g for g, _ in c.guards if any(x == rsp for x in walk(simp(g)))]
+        bc = _const_resolver(pkg, R, "Reaction")
+
+        def through(fmt, s):
+            for g, pol in c.guards:
+                if any(x == rsp for x in walk(simp(g))) and bool(_ceval(simp(g), {rsp: s}, bc)) != pol:
+                    return None            # the line is not parsed at all
+            return _ceval(arg, {rsp: s}, bc)
+        _hop(ctx, key, (R, c.line), through, "self._parse_string(react_string)")
+
+
+def _factory_args(call, env, consts, pkg):
+    vals = []
+    for a in call[2]:
+        if a[0] == "star":
+            vals.extend(_ceval(a[1], env, consts))
+        else:
+            vals.append(_ceval(a, env, consts))
+    kw = {k_: _ceval(v_, env, consts) for k_, v_ in call[3]}
+    fac = pkg.func(NET, "_reaction_factory")
+    names = [a.arg for a in fac.args.args]
+    for n_, v_ in zip(names, vals):
+        kw[n_] = v_
+    return kw.get(names[0]) if names else None
+
+
+def _hop(ctx, key, where, through, expected):
+    """`through(format, line)` is the text one hop hands on for a sample line: it must be the line"""
+    wrong, unknown = [], 0
+    for fmt, s in SAMPLES:
+        try:
+            got = through(fmt, s)
+        except _Unknown:
+            unknown += 1
+            continue
+        if not _same_record(got, s):
+            wrong.append((fmt, s, got))
+    if wrong:
+        fmt, s, got = wrong[0]
+        diff = next((i for i, (a, b) in enumerate(zip(s, got)) if a != b), min(len(s), len(got))) if isinstance(got, str) else 0
+        ctx.bad("R11", key, where,
+                f"the text handed on is not the text received: the well-formed {fmt} line {s.strip()[:50]!r} arrives as "
+                + (f"..{got[max(0, diff - 12):diff + 12]!r}.. instead of ..{s[max(0, diff - 12):diff + 12]!r}.." if isinstance(got, str) else repr(got)[:60])
+                + " -- a rewrite applied to the whole record also rewrites the species columns (the reaction names other reactants / products)",
+                expected=expected, found=f"{len(wrong)} of {len(SAMPLES)} sample lines changed")
+    elif unknown:
+        ctx.unrec("R11", key, where, "cannot follow what is computed from the line before it is handed on")
+    else:
+        ctx.ok("R11", key, where, "every sample line is handed on as it was received")
 
 
 # ------------------------------------------------------------------ R1
@@ -173,13 +573,31 @@ def _r1(ctx, pkg):
                   and any(y == base_ for a_ in (x[2] if x[0] == "call" else x[3]) for y in walk(a_))]
         if not stripped and hidden:
             ctx.unrec("R1", "_reaction_factory:blank-line test", (NET, f.line), "the emptiness of the pre-processed line is tested through " + show(simp(hidden[0]))[:80])
+        elif stripped:
+            ctx.ok("R1", "_reaction_factory:blank-line test", (NET, f.line), "a reaction is created only when the pre-processed line is non-blank after strip()")
         else:
-            ctx.check(stripped, "R1", "_reaction_factory:blank-line test", (NET, f.line),
-                      "a reaction is created only when the pre-processed line is non-blank after strip()" if stripped else
-                      "the emptiness test is made on the raw line: a line holding only blanks / the terminator is truthy and becomes a reaction",
-                      expected="if react_string and react_string.strip():", found="; ".join(show(simp(g))[:100] for g, _ in f.guards))
+            # not the usual spelling: decide on concrete blank lines -- does one of them pass every test on the way to the constructor?
+            passed, unknown = [], False
+            for blank in ("", " ", "\n", "  \t\r\n"):
+                try:
+                    if all(bool(_ceval(simp(g), {base_: blank})) == pol for g, pol in f.guards):
+                        passed.append(blank)
+                except _Unknown:
+                    unknown = True
+            if passed:
+                ctx.bad("R1", "_reaction_factory:blank-line test", (NET, f.line),
+                        f"the emptiness test lets the blank line {passed[0]!r} through: a line holding only blanks / the terminator is truthy and becomes a reaction",
+                        expected="if react_string and react_string.strip():", found="; ".join(show(simp(g))[:100] for g, _ in f.guards))
+            elif unknown:
+                ctx.unrec("R1", "_reaction_factory:blank-line test", (NET, f.line), "cannot decide the tests between the pre-processed line and the constructor on a blank line: "
+                          + "; ".join(show(simp(g))[:60] for g, _ in f.guards)[:160])
+            else:
+                ctx.ok("R1", "_reaction_factory:blank-line test", (NET, f.line), "no blank line passes the tests on the way to the constructor")
         pre = any(isinstance(x, tuple) and len(x) >= 3 and x[0] == "meth" and x[2] == "preprocessing" for x in walk(arg))
-        ctx.check(pre, "R1", "_reaction_factory:preprocessing", (NET, f.line), "the line handed to the parser is the class's preprocessing of the raw line")
+        if not pre and sum(isinstance(c, ast.Attribute) and c.attr == "preprocessing" for c in ast.walk(pkg.modules[NET])) > 0:
+            ctx.unrec("R1", "_reaction_factory:preprocessing", (NET, f.line), "the pre-processing is not applied where the parser is constructed but elsewhere in the module")
+        else:
+            ctx.check(pre, "R1", "_reaction_factory:preprocessing", (NET, f.line), "the line handed to the parser is the class's preprocessing of the raw line")
     # base preprocessing is the identity
     pkg.method("Reaction", "preprocessing")
     base = pkg.folded("Reaction", "preprocessing")
@@ -201,8 +619,39 @@ def _r1(ctx, pkg):
               expected="return line", found="; ".join(f"{show(simp(f.value))[:40]} if {[show(simp(g))[:50] for g, _ in f.guards]}" for f in rets))
     # which classes override it
     over = sorted(c for c in pkg.subclasses("Reaction") if "preprocessing" in pkg.classes[c].methods)
-    ctx.check(over == ["KROMEReaction"], "R1", "preprocessing overrides", (R, base.lineno),
-              "only KROME (whose syntax defines comment and directive lines) filters lines", expected="['KROMEReaction']", found=str(over))
+    extra = [c for c in over if c != "KROMEReaction"]
+    if extra:
+        # another format pre-processes its lines: a violation only when a well-formed line of that format is seen to be dropped / changed
+        for c in extra:
+            ofn = pkg.folded(c, "preprocessing")
+            ofl = Flow(ofn, pkg.cls(c).file)
+            oline = ("param", ofn.args.args[-1].arg) if ofn.args.args else None
+            fmt_ = pkg.cls(c).attrs.get("format")
+            fmt_ = ast.literal_eval(fmt_) if fmt_ is not None and isinstance(fmt_, ast.Constant) else None
+            orets = [f for f in ofl.facts if f.kind == "return"]
+            verdict = None
+            for fm, sample in [x for x in SAMPLES if fmt_ is None or x[0] == fmt_]:
+                try:
+                    vals = [_ceval(simp(f.value), {oline: sample}, _const_resolver(pkg, pkg.cls(c).file, c)) for f in orets
+                            if all(bool(_ceval(simp(g), {oline: sample}, _const_resolver(pkg, pkg.cls(c).file, c))) == pol for g, pol in f.guards)]
+                except _Unknown:
+                    verdict = verdict or "unknown"
+                    continue
+                if len(vals) != 1:
+                    verdict = verdict or "unknown"
+                elif not _same_record(vals[0], sample):
+                    verdict = ("bad", sample, vals[0])
+                    break
+            if isinstance(verdict, tuple):
+                ctx.bad("R1", f"preprocessing overrides:{c}", (pkg.cls(c).file, ofn.lineno), f"{c}.preprocessing drops / rewrites the well-formed line {verdict[1].strip()[:50]!r}",
+                        expected="the line", found=repr(verdict[2])[:60])
+            elif verdict == "unknown" or not orets:
+                ctx.unrec("R1", f"preprocessing overrides:{c}", (pkg.cls(c).file, ofn.lineno), f"{c} pre-processes its lines in a way this rule cannot follow")
+            else:
+                ctx.ok("R1", f"preprocessing overrides:{c}", (pkg.cls(c).file, ofn.lineno), f"{c}.preprocessing keeps every sample line of its format")
+    else:
+        ctx.check(over == ["KROMEReaction"], "R1", "preprocessing overrides", (R, base.lineno),
+                  "only KROME (whose syntax defines comment and directive lines) filters lines", expected="['KROMEReaction']", found=str(over))
     pkg.method("KROMEReaction", "preprocessing")
     k = pkg.folded("KROMEReaction", "preprocessing")          # class-level prefix tables written in place, loops over them unrolled
     kfl = Flow(k, "naunet/reactions/kromereaction.py")
@@ -216,8 +665,27 @@ def _r1(ctx, pkg):
         if any(simp(f.value)[0] not in ("const", "meth", "param") for f in keeps) or not keeps:
             ctx.unrec("R1", "KROMEReaction.preprocessing", (K, k.lineno), "cannot see which lines are kept: expected one `return line.strip()` and `return \"\"` elsewhere")
         else:
-            ctx.bad("R1", "KROMEReaction.preprocessing", (K, k.lineno), "KROME keeps every non-comment, non-directive line stripped and nothing else",
-                    expected="one return of line.strip()", found="; ".join(show(simp(f.value))[:40] for f in keeps))
+            # several paths keep a line (or keep it in another spelling): decide on concrete lines of a KROME file
+            kc = _const_resolver(pkg, K, "KROMEReaction")
+            wrong, unknown = None, False
+            tests = [(s_, s_.strip()) for fm, s_ in SAMPLES if fm == "krome"] + [(d, "") for d in ("#comment\n", "//comment\n", "@format:idx,R,R,P,P,Tmin,Tmax,rate\n", "@var: x = 1\n", "@common: a,b\n")]
+            for text, want_ in tests:
+                try:
+                    vals = [_ceval(simp(f.value), {LINE: text}, kc) for f in rets if not f.loops and all(bool(_ceval(simp(g), {LINE: text}, kc)) == pol for g, pol in f.guards)]
+                except _Unknown:
+                    unknown = True
+                    continue
+                if len(vals) != 1:
+                    unknown = True
+                elif (vals[0] or "") != want_:
+                    wrong = wrong or (text, vals[0])
+            if wrong:
+                ctx.bad("R1", "KROMEReaction.preprocessing", (K, k.lineno), "KROME keeps every non-comment, non-directive line stripped and nothing else",
+                        expected="line.strip() for data lines, '' for comment / directive lines", found=f"{wrong[0].strip()[:40]!r} -> {wrong[1]!r}")
+            elif unknown:
+                ctx.unrec("R1", "KROMEReaction.preprocessing", (K, k.lineno), "cannot see which lines are kept: expected one `return line.strip()` and `return \"\"` elsewhere")
+            else:
+                ctx.ok("R1", "KROMEReaction.preprocessing", (K, k.lineno), "data lines are kept stripped, comment / directive lines give '' (decided on sample lines)")
     else:
         pref, foreign = set(), []
         for g, pol in keeps[0].guards:
@@ -252,6 +720,14 @@ def _r1(ctx, pkg):
         if not ok and st and unread:
             ctx.unrec("R1", f"{cls}._parse_string:blank-guard", (file, fn.lineno), "the record is tested in a way this rule cannot read: " + "; ".join(unread)[:160])
             continue
+        if not st:
+            # no plain store of a decoded attribute in sight (decoding moved behind a dispatch table / setattr): nothing to judge
+            ctx.unrec("R1", f"{cls}._parse_string:blank-guard", (file, fn.lineno), "cannot find where the parser stores the decoded attributes (alpha / reactants / idxfromfile / rate_string)")
+            continue
+        if not ok and any(f.loops for f in st if not any(_blank_guard(simp(g), p) for g, p in f.guards)):
+            # an unguarded store inside a loop over pieces of the record: a blank record may simply have no pieces
+            ctx.unrec("R1", f"{cls}._parse_string:blank-guard", (file, fn.lineno), "attributes are stored inside a loop over pieces of the record without a blank test this rule can read")
+            continue
         ctx.check(ok, "R1", f"{cls}._parse_string:blank-guard", (file, fn.lineno), "nothing is parsed from a blank / None record",
                   found="; ".join(sorted({show(simp(g))[:50] for f in st for g, _ in f.guards}))[:160])
     ctx.floor("R1", "parsers", n, 6)
@@ -274,8 +750,12 @@ def _blank_guard(g, pol):
 
 def _r2(ctx, pkg):
     sp = pkg.cls("Species")
-    lst = set(ast.literal_eval(sp.attrs["default_pseudoelements"]))
-    ctx.check(MARKERS <= lst, "R2", "Species.default_pseudoelements:markers", ("naunet/species.py", sp.node.lineno),
+    try:
+        lst = set(ast.literal_eval(sp.attrs["default_pseudoelements"]))
+    except (KeyError, ValueError, TypeError, SyntaxError):
+        lst = None
+        ctx.unrec("R2", "Species.default_pseudoelements:markers", ("naunet/species.py", sp.node.lineno), "Species.default_pseudoelements is not a literal list in the class body")
+    lst is not None and ctx.check(MARKERS <= lst, "R2", "Species.default_pseudoelements:markers", ("naunet/species.py", sp.node.lineno),
               "the database marker tokens CR, CRP, PHOTON, Photon, CRPHOT are pseudo-elements (filtered by _create_species)", expected=str(sorted(MARKERS)),
               found=str(sorted(MARKERS - lst)) + " missing")
     fn = _parser(pkg, "UCLCHEMReaction")
@@ -314,6 +794,7 @@ def _r2(ctx, pkg):
         return d[1] if d[0] == "meth" and d[2] == "keys" and not d[3] else d
     WANT = {("star", ("attr", SELF, "reactant2type")), ("const", "NAN")}
     lists = []
+    undecided = 0
     for attr in ("reactants", "products"):
         st = [f for f in fl.facts if f.kind == "attrstore" and f.target == attr]
         good = False
@@ -329,19 +810,34 @@ def _r2(ctx, pkg):
                     # filtered, but not by `tok not in <list>`: which tokens are removed is not read here
                     ctx.unrec("R2", f"UCLCHEM:{attr}:keyword filter", ("naunet/reactions/uclchemreaction.py", st[-1].line), "the tokens are filtered by a test this rule cannot read: "
                               + "; ".join(show(c)[:60] for c in others)[:160])
+                    undecided += 1
                     continue
             elif st:
                 ctx.unrec("R2", f"UCLCHEM:{attr}:keyword filter", ("naunet/reactions/uclchemreaction.py", st[-1].line), "the list is not built by a comprehension this rule can read")
+                undecided += 1
                 continue
-        ctx.check(good, "R2", f"UCLCHEM:{attr}:keyword filter", ("naunet/reactions/uclchemreaction.py", st[-1].line if st else fn.lineno),
+        if not st:
+            ctx.unrec("R2", f"UCLCHEM:{attr}:keyword filter", ("naunet/reactions/uclchemreaction.py", fn.lineno), f"no plain store into self.{attr} in the UCLCHEM parser")
+            undecided += 1
+            continue
+        if not good:
+            # positive evidence of a missing filter: the tokens are seen to come straight from the fields of the split record; a
+            # sequence produced by anything else (filter / filterfalse / a helper) may well have been filtered there
+            if _Record(LAYOUT["UCLCHEMReaction"]["n"]).run(m[2]) is None:
+                ctx.unrec("R2", f"UCLCHEM:{attr}:keyword filter", ("naunet/reactions/uclchemreaction.py", st[-1].line),
+                          "cannot see where the tokens the species are created from come from (expected the fields of the split record, filtered by `tok not in <keywords>`): " + show(simp(m[2]))[:100])
+                undecided += 1
+                continue
+        ctx.check(good, "R2", f"UCLCHEM:{attr}:keyword filter", ("naunet/reactions/uclchemreaction.py", st[-1].line),
                   f"tokens of the keyword list are removed before the {attr} are created")
     got = [members(k) for k in lists]
     if lists and any(g is None for g in got):
         ctx.unrec("R2", "UCLCHEM:kwlist", ("naunet/reactions/uclchemreaction.py", fn.lineno), "the keyword list is not a literal / concatenation this rule can read: " + "; ".join(show(simp(k))[:80] for k in lists))
-    else:
-        ok = len(lists) == 2 and all(set(g) == WANT for g in got)
+    elif lists:
+        # (a side without a readable filter was answered above)
+        ok = all(set(g) == WANT for g in got)
         ctx.check(ok, "R2", "UCLCHEM:kwlist", ("naunet/reactions/uclchemreaction.py", fn.lineno), "the keyword list is every key of reactant2type plus the filler NAN",
-                  found="; ".join(show(simp(k))[:100] for k in lists) or "missing")
+                  found="; ".join(show(simp(k))[:100] for k in lists))
     # KROME: reactants/products appended only when _create_species(value) is truthy
     kfn = _parser(pkg, "KROMEReaction")
     kfl = Flow(kfn, "naunet/reactions/kromereaction.py")
@@ -351,6 +847,9 @@ def _r2(ctx, pkg):
 
     def arms(v):
         v = simp(v)
+        if v[0] == "sub" and v[1][0] == "dict" and v[1][1] and v[2][0] != "slice":
+            # `{"r": self.reactants, "p": self.products}[key]`: one of the values of the display
+            return [a for _, val in v[1][1] for a in arms(val)]
         return arms(v[2]) + arms(v[3]) if v[0] in ("phi", "ifexp") else [v]
     sites, blind = [], []
     for f in kfl.facts:
@@ -365,15 +864,37 @@ def _r2(ctx, pkg):
         ctx.unrec("R2", "KROME:append only real species", ("naunet/reactions/kromereaction.py", kfn.lineno),
                   f"the reactant / product lists are not (only) filled by append calls this rule can read (appends seen for {sorted(covered)})")
     else:
-        good = True
+        good, opaque = True, []
         for f, _, args in sites:
             arg = simp(args[0])
+            if not (arg[0] == "meth" and arg[2] == "_create_species") and arg[0] not in ("elem", "sub", "item", "param", "const"):
+                opaque.append(arg)          # neither a created species nor a raw token: what is appended is not understood
             good = good and arg[0] == "meth" and arg[2] == "_create_species" and any(pol and any(x == arg for x in walk(simp(g))) for g, pol in f.guards)
-        ctx.check(good, "R2", "KROME:append only real species", ("naunet/reactions/kromereaction.py", kfn.lineno),
-                  "a token is appended only when _create_species(token) is not None (pseudo-elements are dropped)")
+        if not good and opaque:
+            ctx.unrec("R2", "KROME:append only real species", ("naunet/reactions/kromereaction.py", kfn.lineno), "cannot see what is appended to the reactant / product lists: " + show(opaque[0])[:100])
+        else:
+            ctx.check(good, "R2", "KROME:append only real species", ("naunet/reactions/kromereaction.py", kfn.lineno),
+                      "a token is appended only when _create_species(token) is not None (pseudo-elements are dropped)")
 
 
 # ------------------------------------------------------------------ R3 / R5 for split formats
+
+def _indirect_stores(fn):
+    """text of the first construct of the (folded) parser through which an attribute of self may be set without a plain `self.x = ..`:
+    setattr / vars / __dict__ / a call that is handed self, or of a method of self that was not put back in place; '' when there is none"""
+    for c in ast.walk(fn):
+        if isinstance(c, ast.Call):
+            f = c.func
+            if isinstance(f, ast.Name) and f.id in ("setattr", "vars"):
+                return ast.unparse(c)[:50]
+            if isinstance(f, ast.Attribute) and isinstance(f.value, ast.Name) and f.value.id == "self" and f.attr not in KEEP and not f.attr.startswith("__"):
+                return ast.unparse(c)[:50]
+            if any(isinstance(a, ast.Name) and a.id == "self" for a in c.args):
+                return ast.unparse(c)[:50]
+        if isinstance(c, ast.Attribute) and c.attr in ("__dict__", "__setattr__"):
+            return ast.unparse(c)[:50]
+    return ""
+
 
 def _positions(fl, attrs):
     out = {}
@@ -389,7 +910,7 @@ def _unwrap(v):
         if v[0] == "call" and len(v[2]) == 1 and v[1][0] == "global":
             wraps.append(v[1][1])
             v = v[2][0]
-        elif v[0] == "phi":
+        elif v[0] in ("phi", "ifexp"):
             # UCLCHEM freeze window: the file value is the else arm
             v = v[3]
         else:
@@ -556,7 +1077,10 @@ def _split_formats(ctx, pkg):
         src = show(rec)
         star, from_end = R_.star, R_.from_end
         sep_ok = sp[3] == (("const", lay["sep"]),) and not sp[4]
-        ctx.check(sep_ok, "R3", f"{cls}:separator", (file, fn.lineno), f"records are split at '{lay['sep']}'", found=src[-40:])
+        if not sep_ok and not (len(sp[3]) == 1 and sp[3][0][0] == "const" and not sp[4]):
+            ctx.unrec("R3", f"{cls}:separator", (file, fn.lineno), f"cannot see the literal separator the record is split at: {src[-40:]}")
+        else:
+            ctx.check(sep_ok, "R3", f"{cls}:separator", (file, fn.lineno), f"records are split at '{lay['sep']}'", found=src[-40:])
         if cls == "UMISTReaction":
             # positions counted from the end (the targets after a starred one) are right only when the record has exactly n fields
             if star or from_end or total is not None:
@@ -580,8 +1104,8 @@ def _split_formats(ctx, pkg):
                           found=f"fields[{got[1]}:{got[2]}]  ({show(base)[-50:]})")
         for attr, (p, conv) in lay["fields"].items():
             if attr not in seen:
-                if any(isinstance(c, ast.Call) and isinstance(c.func, ast.Name) and c.func.id in ("setattr", "vars") for c in ast.walk(fn)):
-                    ctx.unrec("R5", f"{cls}:{attr}", (file, fn.lineno), f"no plain store into self.{attr}; attributes are set through setattr with a name this rule cannot read")
+                if _indirect_stores(fn):
+                    ctx.unrec("R5", f"{cls}:{attr}", (file, fn.lineno), f"no plain store into self.{attr}; attributes may be set indirectly ({_indirect_stores(fn)})")
                 else:
                     ctx.bad("R5", f"{cls}:{attr}", (file, fn.lineno), f"self.{attr} is never assigned from the record")
                 continue
@@ -674,7 +1198,10 @@ def _kida(ctx, pkg):
     for attr, (p, conv) in KIDA_TAIL.items():
         f = pos.get(attr)
         if f is None:
-            ctx.bad("R5", f"KIDA:{attr}", (file, fn.lineno), f"self.{attr} is never assigned from the record")
+            if _indirect_stores(fn):
+                ctx.unrec("R5", f"KIDA:{attr}", (file, fn.lineno), f"no plain store into self.{attr}; attributes may be set indirectly ({_indirect_stores(fn)})")
+            else:
+                ctx.bad("R5", f"KIDA:{attr}", (file, fn.lineno), f"self.{attr} is never assigned from the record")
             continue
         v, wraps = _unwrap(simp(f.value))
         if v[0] == "sub" and v[2][0] == "const" and isinstance(v[2][1], int):
@@ -695,9 +1222,11 @@ def _kida(ctx, pkg):
         ctx.ok("R3", "KIDA:arity", (file, fn.lineno), "every token of the numeric tail is read by its position from the start of the tail (no destructuring whose arity could be wrong)")
     elif not dest:
         ctx.unrec("R3", "KIDA:arity", (file, others[0].lineno if others else fn.lineno), f"no destructuring of the blank-separated text after column {end} into named fields")
+    elif len(dest) != 1 or any(isinstance(e, ast.Starred) for e in dest[0].targets[0].elts):
+        ctx.unrec("R3", "KIDA:arity", (file, dest[0].lineno), "the numeric tail is destructured more than once / with a starred target: the number of tokens it must have is not decided")
     else:
-        ctx.check(len(dest) == 1 and len(dest[0].targets[0].elts) == 13 and not any(isinstance(e, ast.Starred) for e in dest[0].targets[0].elts), "R3", "KIDA:arity", (file, fn.lineno),
-                  "the numeric tail of a KIDA record has exactly 13 tokens", found=str(len(dest[0].targets[0].elts)) if dest else "none")
+        ctx.check(len(dest[0].targets[0].elts) == 13, "R3", "KIDA:arity", (file, fn.lineno),
+                  "the numeric tail of a KIDA record has exactly 13 tokens", found=str(len(dest[0].targets[0].elts)))
 
 
 # ------------------------------------------------------------------ Leeds
@@ -722,6 +1251,9 @@ def _leeds_prefix(ctx, fl, file):
         if f.kind == "attrstore" and f.target in ("reactants", "products"):
             n += 1
             s = show(simp(f.value))
+            if "surface_prefix='G'" not in s and not ("_create_species(" in s and "surface_prefix" not in s and "**" not in s):
+                ctx.unrec("R5", f"Leeds:{f.target}:surface prefix", (file, f.line), f"cannot see the call of _create_species the list is built with / the surface prefix it is given: {s[:100]}")
+                continue
             ctx.check("surface_prefix='G'" in s, "R5", f"Leeds:{f.target}:surface prefix", (file, f.line), "Leeds names are parsed with the surface prefix 'G'", found=s[:100])
     ctx.floor("R5", "Leeds species stores", n, 2)
 
@@ -846,6 +1378,11 @@ def _r6(ctx, rm, pkg):
     fl = Flow(fn, UCF)
     st = [f for f in fl.facts if f.kind == "attrstore" and f.target == "reaction_type" and f.extra.get("obj") == SELF]
     v = simp(st[0].value) if st else None
+    if len(st) == 2 and v[0] == "sub" and v[2][0] != "slice" and any(g == ("except", "KeyError") and pol for g, pol in st[1].guards) \
+            and [g_ for g_ in st[1].guards if g_[0] != ("except", "KeyError")] == list(st[0].guards):
+        # `try: t = D[k]` / `except KeyError: t = d`  is  `t = D.get(k, d)`
+        v = ("meth", v[1], "get", (v[2], simp(st[1].value)), ())
+        st = st[:1]
     tab = v[1] if v is not None and v[0] == "meth" and v[2] == "get" and len(v[3]) == 2 and not v[4] else None
     if len(st) != 1 or tab != ("attr", SELF, "reactant2type"):
         ctx.unrec("R6", "UCLCHEM:default type", (UCF, fn.lineno), "the reaction type is not looked up as self.reactant2type.get(<marker token>, <default>)")
@@ -1062,4 +1599,35 @@ BENIGN += [
     {"name": "uclchem-record-negative-slices", "file": UC, "old": _UC_REC, "new": '            rec = react_string.split(",")\n            rpspec = rec[:-5]\n            a, b, c, lt, ut = rec[-5:]\n'},
     {"name": "leeds-class-table-of-slices", "edits": _le_slices()},
     {"name": "kida-tail-indexed", "edits": _ki_indexed()},
+]
+
+# ---- wave 3: identity flow from the file to the parser (R11)
+_LOOP_TRY = "                try:\n                    reac, prod, reactinst = self._add_reaction((line, format))\n"
+MUTANTS += [
+    {"name": "reading-loop-skips-hash-and-bang-lines", "file": NET, "old": _LOOP_TRY,
+     "new": '                if line.lstrip().startswith(("#", "!")):\n                    continue\n' + _LOOP_TRY, "rules": ["R11"]},
+    {"name": "reading-loop-strips-leading-blanks", "file": NET, "old": "self._add_reaction((line, format))", "new": "self._add_reaction((line.strip(), format))", "rules": ["R11"]},
+    {"name": "base-constructor-rewrites-fortran-exponents-in-whole-line", "edits": [
+        {"file": R, "old": "from __future__ import annotations\n", "new": "from __future__ import annotations\nimport re\n"},
+        {"file": R, "old": "        self._parse_string(react_string)\n",
+         "new": '        self._parse_string(re.sub(r"(\\d\\.?)[dD]([+-]?\\d)", r"\\1e\\2", react_string) if react_string else react_string)\n'}], "rules": ["R11"]},
+    {"name": "uclchem-constructor-drops-surface-marker", "file": UC, "old": "super().__init__(react_string=react_string)", "new": 'super().__init__(react_string=react_string.lstrip("#"))', "rules": ["R11"]},
+]
+BENIGN += [
+    {"name": "reading-loop-skips-blank-lines-early", "file": NET, "old": _LOOP_TRY, "new": "                if not line.strip():\n                    continue\n" + _LOOP_TRY},
+    {"name": "reading-loop-skips-krome-comments-early", "file": NET, "old": _LOOP_TRY,
+     "new": '                if format == "krome" and line.startswith("#"):\n                    continue\n' + _LOOP_TRY},
+    {"name": "base-constructor-names-the-line-first", "file": R, "old": "        self._parse_string(react_string)\n", "new": "        record = react_string\n        self._parse_string(record)\n"},
+]
+MUTANTS += [
+    {"name": "factory-guard-clause-compares-raw-line-with-empty", "file": NET, "old": _FACT_OLD,
+     "new": '    line = initializer.preprocessing(react_string)\n    if line is None or line == "":\n        return None\n    return initializer(line)\n', "rules": ["R1"]},
+]
+BENIGN += [
+    {"name": "factory-guard-clause-stripped-equals-empty", "file": NET, "old": _FACT_OLD,
+     "new": '    line = initializer.preprocessing(react_string)\n    if not line or line.strip() == "":\n        return None\n    return initializer(line)\n'},
+    {"name": "factory-guard-clause-isspace", "file": NET, "old": _FACT_OLD,
+     "new": '    line = initializer.preprocessing(react_string)\n    if not line or line.isspace():\n        return None\n    return initializer(line)\n'},
+    {"name": "krome-preprocessing-two-keeping-returns", "file": KR, "old": '        else:\n            return line.strip()\n',
+     "new": '        elif line.startswith(" "):\n            return line.strip()\n        else:\n            return line.strip()\n'},
 ]
